@@ -436,10 +436,20 @@ class _DefinitionLocationFinder:
 class _ExceptionalConditionChecker:
     def __call__(self, info):
         self.base_conditions(info)
+        if info.variable:
+            self.variable_conditions(info)
         if info.one_line:
             self.one_line_conditions(info)
         else:
             self.multi_line_conditions(info)
+
+    def variable_conditions(self, info):
+        if not info.one_line:
+            raise RefactoringError("Extract variable should not span multiple lines.")
+        try:
+            ast.parse("(%s)" % info.extracted.strip(), mode="eval")
+        except SyntaxError:
+            raise RefactoringError("Extract variable should be performed on an expression.")
 
     def base_conditions(self, info):
         if info.region[1] > info.scope_region[1]:
